@@ -59,10 +59,16 @@ def h_add(nr, nc, axis, md):
 
 def h_del(nr, nc, axis):
     t, a = make_table(nr, nc, md='both', zeros=0, unsorted=False, type_='OTU table')
-    all_keys = ['taxonomy', 'n', 'env', 'depth', 'nonexistent']
+    # categories need not be uniform across ids: one id may carry a key the others lack
+    jag = pick(['uniform', 'extra-key-on-last-id', 'extra-key-on-first-id'], 'key-sets')
+    if jag != 'uniform':
+        for ax in AX:
+            k = 0 if jag == 'extra-key-on-first-id' else len(a.ids(ax)) - 1
+            t.add_metadata({a.ids(ax)[k]: {'added': 'A'}}, axis=ax)
+            a.md(ax)[k]['added'] = 'A'
     keys = pick([None, [], ['taxonomy'], ['n'], ['env'], ['depth', 'nonexistent'], ['taxonomy', 'n'], ['env', 'depth'],
-                 ['taxonomy', 'n', 'env'], ['taxonomy', 'n', 'env', 'depth']], 'keys')
-    sig = dict(axis=axis, keys=str(keys))
+                 ['taxonomy', 'n', 'env'], ['taxonomy', 'n', 'env', 'depth'], ['added'], ['added', 'env', 'n']], 'keys')
+    sig = dict(axis=axis, keys=str(keys), key_sets=jag)
     _, e = call(lambda: t.del_metadata(keys=None if keys is None else list(keys), axis=axis))
     if e is not None:
         fail('del:raised', repr(e)[:150], **sig)
